@@ -45,11 +45,59 @@ theorem mode_flags_correct (m : Str) (fl : Flags)
       (simp [PyMode.fileioParse, PyMode.fileioFold, PyMode.fileioChar] at hp
        subst hp; rfl)
 
-/-- `Mode.validate` accepts strings Python's `open` rejects (`"rw"`: Python raises ValueError,
-`MemoryFS.openbin` opens it as read/write/truncate). -/
-theorem mode_validate_wider_than_python_counterexample :
-    Mode.validate ['r', 'w'] = .ok () ∧ PyMode.pyOpen ['r', 'w'] = none ∧
-    (Mode.flags ['r', 'w']).truncate = true := by decide
+/-- REPAIRED (was `mode_validate_wider_than_python_counterexample`: `Mode.validate` accepted `"rw"`,
+which Python's `open` rejects and `MemoryFS.openbin` opened as read/write/truncate).  Since
+`fix: Mode.validate rejects the mode strings io.open rejects`, `Mode.validate` is no wider than
+Python: every string it accepts — all strings, no length bound — is one `io.open` +
+`FileIO.__init__` accept; the old witness is now a `ValueError` on both sides. -/
+theorem mode_validate_wider_than_python_repaired :
+    (∀ m : Str, Mode.validate m = .ok () → (PyMode.pyOpen m).isSome = true) ∧
+    Mode.validate ['r', 'w'] = .err .ValueError ∧ PyMode.pyOpen ['r', 'w'] = none := by
+  refine ⟨?_, by decide, by decide⟩
+  intro m h
+  unfold Mode.validate at h
+  split at h
+  · cases h
+  · rename_i c0 rest
+    split at h
+    · cases h
+    · rename_i hall
+      split at h
+      · cases h
+      · split at h
+        · cases h
+        · rename_i htb
+          split at h
+          · cases h
+          · rename_i hdup
+            split at h
+            · cases h
+            · rename_i hone
+              have hall' : ((c0 :: rest).all fun c => ['a', 'x', 'r', 'w', 'b', '+', 't'].contains c) = true := by
+                simp only [Bool.not_eq_true, Bool.not_eq_false'] at hall
+                rw [List.all_eq_true] at hall ⊢
+                intro c hc
+                have := hall c hc
+                simp only [Mode.validChars, List.contains_eq_mem, List.mem_cons, List.not_mem_nil, or_false,
+                  decide_eq_true_eq] at this ⊢
+                rcases this with h | h | h | h | h | h | h <;> simp [h]
+              have hdup' : ¬ ((c0 :: rest).eraseDups.length < (c0 :: rest).length) := by
+                simp only [bne_iff_ne, ne_eq, Decidable.not_not] at hdup
+                omega
+              unfold PyMode.pyOpen PyMode.ioOpenRawMode
+              simp only [hall', Bool.not_true, Bool.false_eq_true, if_false, hdup', decide_false]
+              simp only [Mode.has] at htb hone
+              simp only [Mode.firstChars, List.filter] at hone
+              generalize (c0 :: rest).contains 'x' = bx at hone htb ⊢
+              generalize (c0 :: rest).contains 'r' = br at hone htb ⊢
+              generalize (c0 :: rest).contains 'w' = bw at hone htb ⊢
+              generalize (c0 :: rest).contains 'a' = ba at hone htb ⊢
+              generalize (c0 :: rest).contains '+' = bp at hone htb ⊢
+              generalize (c0 :: rest).contains 't' = bt at hone htb ⊢
+              generalize (c0 :: rest).contains 'b' = bb at hone htb ⊢
+              cases bx <;> cases br <;> cases bw <;> cases ba <;> simp at hone <;>
+                cases bp <;> cases bt <;> cases bb <;> simp at htb <;>
+                simp [PyMode.b2n, PyMode.fileioParse, PyMode.fileioFold, PyMode.fileioChar]
 
 /-- `to_platform_bin` yields a binary mode with the same flags. -/
 theorem to_platform_bin_flags (m : Str) (h : Mode.validateBin m = .ok ()) :
